@@ -205,6 +205,23 @@ def _check_answers(g, seq, tag, probe_versions):
                 raise Violation(f"C16:group-{tag}:resolve", f"resolve({n!r},{v}) -> {gotr}", expr)
             if ((n, v) in g) != (v in exp):
                 raise Violation(f"C16:group-{tag}:contains-version", f"({n!r},{v}) in g -> {(n, v) in g}", v in exp)
+        if exp:
+            # a reference that names ANOTHER group is supported by no reference of this group: nothing is resolved for it
+            for foreign in (PluginRef(group="vt-some-other-group", name=n, version=exp[-1]),
+                            PluginRef._subclass_for("vt-some-other-group")(name=n, version=exp[-1])):
+                try:
+                    hit = g.get(foreign)
+                except Exception:  # noqa: BLE001
+                    hit = None
+                inn = foreign in g
+                try:
+                    g[foreign]
+                    item = True
+                except Exception:  # noqa: BLE001
+                    item = False
+                if hit is not None or inn or item:
+                    raise Violation(f"C16:group-{tag}:foreign-group-reference-resolved", f"reference {foreign!r}: get -> {hit!r}, in -> {inn}, "
+                                    f"[] -> {'a plugin' if item else 'KeyError'} in group {g.name!r}", "None / False / KeyError")
         r = g.resolve(n)
         gotr = tuple(r.version) if r is not None else None
         if gotr != (exp[-1] if exp else None):
